@@ -46,13 +46,15 @@ ASSUMPTIONS = [
     "$GENERATE ranges are capped by the generator (a documented huge loop is not a hang); inputs <= 64 KiB",
 ]
 REQUIRED = ["mon.structured_message_mutations", "ep.message.from_wire", "ep.name.from_wire", "ep.rdata.from_wire", "ep.edns.option_from_wire", "ep.name.from_text", "ep.rdata.from_text",
-            "ep.ttl.from_text", "ep.zone.from_text", "ep.zonefile.read_rrsets", "ep.message.from_text", "ep.rrset.from_text", "mon.rerender", "mon.continue_on_error"]
+            "ep.ttl.from_text", "ep.zone.from_text", "ep.zonefile.read_rrsets", "ep.message.from_text", "ep.rrset.from_text", "mon.rerender", "mon.continue_on_error", "mon.continue_on_error_one_damaged_record"]
 BUDGET = {"quick": 50.0, "thorough": 480.0}
 
 ATOMS = ["\\300", "\\256", "\\999", "\\00", "\\0", "\\", "\\1a2", '""', '"', "(", ")", "((", "))", ";", "$TTL", "$ORIGIN", "$GENERATE", "$INCLUDE", "$UNICODE", "$",
          "9" * 5000, "99999999999999999999", "-1", "٣", "²", "1e9", "0x10", "\x00", "​", "é", "\\# 0", "\\# 1", "\\# 2 00", "\\#", "@", ".", "..", "a..b",
          "x" * 64, "y" * 300, "TYPE0", "TYPE65536", "CLASS70000", "TYPE", "1w2d3h4m5s", "1z", "4294967296", "2147483648", "IN", "CH", "ANY", "NONE", "\t", "\r", "\\.", "*",
-         "1-2", "1-3/0", "${0,0,z}", "${-1}", "$" + "{" * 50, "''", "`", "\\032", "\n", " \n ", "\n\n("]
+         "1-2", "1-3/0", "${0,0,z}", "${-1}", "$" + "{" * 50, "''", "`", "\\032", "\n", " \n ", "\n\n(",
+         # characters that are "digits" to str.isdigit() but not decimal (superscripts, circled, Ethiopic), alone and inside \\DDD escapes
+         "\\\u00b2", "a\\\u00b2b", "\\1\u00b23", "\\12\u2460", "\\\u1369", "\\\u0663\u0663\u0663", "\\0\u0664\u0661", "x\\\u2460.example."]
 
 
 def shards(tier, seed):
@@ -285,6 +287,56 @@ def fuzz_message_wire(mon, rng, w, tag, keyring=None):
                                               ("sections", lambda: [(rr.to_text(), hash(rr.name)) for s in m.sections for rr in s])], case)
 
 
+def check_one_damaged_record(ctx, rng):
+    """continue-on-error with exactly ONE record made unreadable (its rdata fails to decode, its header and length are intact):
+    one failure is recorded, at an offset inside that record, and every other record is delivered"""
+    from vlib.ref import wirewalk as WW
+
+    ctx.count("evaluations")
+    ctx.count("mon.continue_on_error_one_damaged_record")
+    m = dns.message.make_response(dns.message.make_query("q.example.", "A"))
+    n = rng.randint(2, 9)
+    for i in range(n):
+        sec = rng.choice((m.answer, m.authority, m.additional))
+        owner = dns.name.from_text(f"r{i}.{rng.choice(('example.', 'q.example.', 'other.test.'))}")
+        t = rng.choice(("A", "A", "MX", "TXT", "NS"))
+        text = {"A": f"10.0.{i}.1", "MX": f"10 mx{i}.example.", "TXT": f'"t{i}" "more"', "NS": f"ns{i}.q.example."}[t]
+        m.find_rrset(sec, owner, 1, dns.rdatatype.from_text(t), create=True).add(dns.rdata.from_text("IN", t, text), 60 + i)
+    w = bytearray(m.to_wire())
+    recs = [r for sec in WW.walk(bytes(w))["records"] for r in sec]
+    damageable = [j for j, r in enumerate(recs) if r[1] in (1, 15, 2)]
+    if not damageable:
+        return
+    j = rng.choice(damageable)
+    labels, t, c, ttl, off, rdlen = recs[j]
+    if t == 1:
+        how = "A-retyped-AAAA"
+        w[off - 10:off - 8] = struct.pack("!H", 28)  # four octets are not an IPv6 address
+    else:
+        how = "bad-label-type-in-target"
+        w[off + (2 if t == 15 else 0)] = 0x80  # label type 10 does not exist; nothing points into this rdata (it is last of its spelling)
+    start = off - 10 - 1  # somewhere in the owner name at the latest
+    case = {"kind": "one-damaged", "wire": bytes(w), "damaged_index": j, "how": how}
+    try:
+        got = dns.message.from_wire(bytes(w), continue_on_error=True, one_rr_per_rrset=True)
+    except Exception as e:
+        ctx.violation(f"continue_on_error-still-raises:{type(e).__name__}", f"{how}: {e!r}", case)
+        return
+    ctx.seen(("one-damaged", how, j == len(recs) - 1, len(recs)))
+    delivered = [(rr.name.to_text().lower(), int(rr.rdtype)) for sec in (got.answer, got.authority, got.additional) for rr in sec]
+    want = [(".".join(l.decode().lower() for l in r[0]) or ".", r[1]) for k, r in enumerate(recs) if k != j]
+    want = [(nm if nm.endswith(".") else nm + ".", t) for nm, t in want]
+    if sorted(delivered) != sorted(want):
+        ctx.violation("continue_on_error-intact-records-lost-after-a-damaged-one", f"{how} at record {j} of {len(recs)}: delivered {len(delivered)} of {len(want)} intact records; errors {[(type(e.exception).__name__, e.offset) for e in got.errors]}", case)
+        return
+    if len(got.errors) != 1:
+        ctx.violation("continue_on_error-error-count-differs-from-damage", f"{how}: one damaged record, errors {[(type(e.exception).__name__, e.offset) for e in got.errors]}", case)
+        return
+    eo = got.errors[0].offset
+    if not (off - 10 <= eo <= off + rdlen):
+        ctx.violation("continue_on_error-offset-outside-the-damaged-record", f"{how}: record header at {off - 10}, rdata {off}..{off + rdlen}, recorded offset {eo}", case)
+
+
 def fuzz_rdata_wire(mon, rng, rdclass, rdtype, tname, data):
     case = {"kind": "rdwire", "rdclass": rdclass, "rdtype": rdtype, "type": tname, "data": data}
     pre = b"\x03abc\x00\xc0\x00"
@@ -478,6 +530,8 @@ def run(spec, ctx):
             else:
                 fw = w[:12] + bytes(rng.randrange(256) for _ in range(rng.randint(0, 60)))
             fuzz_message_wire(mon, rng, fw, "mut", keyring=key if rng.random() < 0.3 else None)
+            if i % 4 == 0:
+                check_one_damaged_record(ctx, rng)
             # --- names (wire)
             buf, pos, well, kind = hostile_buffer(rng)
             n = mon.run("name.from_wire", lambda: dns.name.from_wire(buf, pos), len(buf), {"kind": "namewire", "buf": buf, "pos": pos})
